@@ -54,3 +54,11 @@ Print Assumptions C11_accepted_iff_rendered.
 Theorem C11_accepted_type_is_rendering : forall f s t r, p_type f s = POk (t, r) -> exists u, s = u ++ r /\ RType t u.
 Proof. exact p_type_renders. Qed.
 Print Assumptions C11_accepted_type_is_rendering.
+
+(* tie: the functions this property's model describes by hand (not by translation) still have the pinned text; an
+   edit to one of them breaks this obligation and sends the check searching for a failing input *)
+From VL Require Import ShapeFacts.
+From VLG Require Import ShapeGen.
+Theorem C11_modelled_code_is_the_pinned_text : shapes_for_C11 = true.
+Proof. exact shapes_C11_ok. Qed.
+Print Assumptions C11_modelled_code_is_the_pinned_text.
